@@ -137,6 +137,7 @@ func Load() (*Prog, error) {
 		}
 	}
 	sort.Slice(p.Funcs, func(i, j int) bool { return p.Funcs[i].String() < p.Funcs[j].String() })
+	resolveRenames(p)
 	return p, nil
 }
 
@@ -170,6 +171,9 @@ func (p *Prog) pkg(rel string) (*packages.Package, error) {
 func (p *Prog) Func(spec string) (*ssa.Function, error) {
 	obj, err := p.FuncObj(spec)
 	if err != nil {
+		if fn := p.funcByCanonSpec(spec); fn != nil {
+			return fn, nil
+		}
 		return nil, err
 	}
 	fn := p.SSA.FuncValue(obj)
@@ -334,8 +338,28 @@ func shortFn(fn *ssa.Function) string {
 	if fn == nil {
 		return "<nil>"
 	}
-	s := fn.String()
-	s = strings.ReplaceAll(s, modPath+"/", "")
-	s = strings.ReplaceAll(s, modPath, "")
-	return s
+	if len(canonName) > 0 {
+		// renamed anchors keep their recorded name (see anchors.go); closures follow their parent
+		if par := fn.Parent(); par != nil {
+			return shortFn(par) + strings.TrimPrefix(fn.String(), par.String())
+		}
+		if c, ok := canonName[fn]; ok {
+			return c
+		}
+	}
+	return rawShortFn(fn)
+}
+
+// fnName: the (recorded) simple name of a function or method.
+func fnName(fn *ssa.Function) string {
+	if fn == nil {
+		return ""
+	}
+	if c, ok := canonName[fn]; ok {
+		if i := strings.LastIndex(c, "."); i >= 0 {
+			return c[i+1:]
+		}
+		return c
+	}
+	return fn.Name()
 }
